@@ -172,6 +172,26 @@ Theorem src_count_types :
 Proof. exact count_types_src. Qed.
 Print Assumptions src_count_types.
 
+(* loops carry no state from one call to the next: parallel_for_impl is one statement per backend; the TBB call's
+   argument list is closed — exactly (first, last, body), so every call gets TBB's own per-call task_group_context —
+   and no local of the loop entry points is static.  This is what lets Model.hadmissible judge each loop of a history
+   from its request alone (Properties.history_independent). *)
+Theorem src_dispatch_stateless :
+  (exists sig a b c, f_body src_impl_tbb_int = [Exp (Call "parallel_for" sig [a; b; c])]) /\
+  (exists sig a b c, f_body src_impl_tbb_size_t = [Exp (Call "parallel_for" sig [a; b; c])]) /\
+  (exists sig a c, f_body src_impl_internal_int = [Exp (Call "parallel_for_internal" sig [a; c])]) /\
+  (exists sig a c, f_body src_impl_internal_size_t = [Exp (Call "parallel_for_internal" sig [a; c])]) /\
+  (exists d c i e n b, f_body src_impl_omp_int = [Omp d c [For i e n b]]) /\
+  (exists d c i e n b, f_body src_impl_omp_size_t = [Omp d c [For i e n b]]) /\
+  (exists i e n b, f_body src_impl_debug_int = [For i e n b]) /\
+  (exists i e n b, f_body src_impl_debug_size_t = [For i e n b]) /\
+  forallb no_static [src_impl_tbb_int; src_impl_tbb_size_t; src_impl_omp_int; src_impl_omp_size_t;
+                     src_impl_internal_int; src_impl_internal_size_t; src_impl_debug_int; src_impl_debug_size_t;
+                     src_parallel_for_internal; src_blocks_u32_1024; src_blocks_u32_1024_lambda0; src_blocks_i32_4;
+                     src_blocks_i32_4_lambda0; src_foreach_iter; src_foreach_iter_lambda0; src_foreach_container] = true.
+Proof. exact dispatch_stateless_src. Qed.
+Print Assumptions src_dispatch_stateless.
+
 (* ================================================================== no uint32_t wrap *)
 (* every range a reachable state holds (queued, held, still to be cut) lies inside [0, n] ... *)
 Theorem enki_ranges_bounded : forall p t0 s, wf_params p -> reachable p t0 s -> bounded p s.
